@@ -314,6 +314,34 @@ void sim::engine_threads(RunCtx& cx) {
     cx.ctr->add("basic_blocks_scheduled", sched::blocks());
     cx.ctr->add("threads_run", conc.size());
     if (sched::switches() >= 100) cx.ctr->add("probe.run_with_100_or_more_context_switches");
+    // The sequential run is no independent witness for state the library keeps per process (whatever the first caller left behind is
+    // seen by both runs): what the read workloads decoded is also compared with the independent reader's view of the same input.
+    for (unsigned i = 0; i < solo.size(); i++) {
+        if (solo[i].kind != W_READ || !solo[i].error.empty() || !solo[i].input) continue;
+        std::string want;
+        try {
+            ref::RFile rf = ref::Interp::file(*solo[i].input);
+            for (auto& b : rf.blocks) {
+                for (auto& q : b.qr) want += ref::dump(q) + "\n";
+                std::map<std::string, uint64_t> agg;
+                for (auto& a : b.aec) agg[ref::dump(a.first)] += a.second;
+                for (auto& a : agg) want += a.first + "#" + std::to_string(a.second) + "\n";
+                for (auto& m : b.mm) want += ref::dump(m) + "\n";
+            }
+            want += "<eof>";
+        } catch (std::exception&) { continue; }   // (an input the independent reader does not accept is not judged here)
+        for (int which = 0; which < 2; which++) {
+            const std::string& got = which == 0 ? conc[i].result : solo[i].result;
+            if (got != want) {
+                size_t d = 0;
+                while (d < got.size() && d < want.size() && got[d] == want[d]) d++;
+                cx.violation("C20", "C20/I29/decoded-records-differ-from-independent-reader/read-buffer", std::string("thread ") + std::to_string(i) + (which == 0 ? " (concurrent run)" : " (sequential run)") + " decoded records that differ from the independent reader's at offset " +
+                                                                                                            std::to_string(d) + ": ..." + json_escape(got.substr(d > 40 ? d - 40 : 0, 90)) + "... vs ..." + json_escape(want.substr(d > 40 ? d - 40 : 0, 90)) + "...");
+                break;
+            }
+            cx.ctr->add("read_workloads_matching_independent_reader");
+        }
+    }
     for (unsigned i = 0; i < conc.size(); i++) {
         cx.tag(WN[conc[i].kind]);
         if (conc[i].error != solo[i].error)
